@@ -880,10 +880,16 @@ func judgeErrSites(c ErrCase) *eng.Fail {
 				seen = append(seen, "tri("+show(a)+","+show(b)+","+show(c)+")")
 				return "t", nil
 			},
+			// a call whose result is the operand of a member access (plain or asserting) is one call
+			"obj": func(a string) (map[string]interface{}, error) {
+				seen = append(seen, "obj("+a+")")
+				return map[string]interface{}{"name": a, "next": map[string]interface{}{"id": "i" + a}}, nil
+			},
 		}
 		r := formula.NewRunner()
 		r.SetThis(nd)
-		for round, src := range []string{"pair('x', wrap('y'))", "pair('x', wrap('y'))", "upper('q') + pair('x', wrap('y'))", "tri(1, pair('a', wrap('b')), wrap('c'))", "pair(wrap('m'), wrap('n'))"} {
+		for round, src := range []string{"pair('x', wrap('y'))", "pair('x', wrap('y'))", "upper('q') + pair('x', wrap('y'))", "tri(1, pair('a', wrap('b')), wrap('c'))", "pair(wrap('m'), wrap('n'))",
+			"obj('a')!.name", "obj('a')!.next!.id", "obj(wrap('b'))!.name", "pair(obj('x')!.name, obj('y').next.id)", "[obj('p')!.next!.id, obj('q')!.name]"} {
 			seen = nil
 			p, err := cachedParse(src)
 			if err != nil {
@@ -898,6 +904,11 @@ func judgeErrSites(c ErrCase) *eng.Fail {
 				"upper('q') + pair('x', wrap('y'))":       "wrap(y) pair(x,<y>)",
 				"tri(1, pair('a', wrap('b')), wrap('c'))": "wrap(b) pair(a,<b>) wrap(c) tri(num:1,str:\"a<b>\",str:\"<c>\")",
 				"pair(wrap('m'), wrap('n'))":              "wrap(m) wrap(n) pair(<m>,<n>)",
+				"obj('a')!.name":                          "obj(a)",
+				"obj('a')!.next!.id":                      "obj(a)",
+				"obj(wrap('b'))!.name":                    "wrap(b) obj(<b>)",
+				"pair(obj('x')!.name, obj('y').next.id)":  "obj(x) obj(y) pair(x,iy)",
+				"[obj('p')!.next!.id, obj('q')!.name]":    "obj(p) obj(q)",
 			}[src]
 			if got := strings.Join(seen, " "); got != want {
 				return eng.F("C11/nested-arguments", "evaluation %d on one runner, %s: host calls [%s], expected [%s]", round+1, src, got, want)
